@@ -276,13 +276,16 @@ def run_sharded(binary, shards, timeout=3600, env=None):
 
 
 class Case:
-    __slots__ = ("ops", "label", "nontrivial", "in_domain")
+    __slots__ = ("ops", "label", "nontrivial", "in_domain", "judge")
 
-    def __init__(self, ops, label="", nontrivial=True, in_domain=True):
+    def __init__(self, ops, label="", nontrivial=True, in_domain=True, judge=None):
         self.ops = ops
         self.label = label
         self.nontrivial = nontrivial
-        self.in_domain = in_domain
+        self.in_domain = in_domain      # inside the model's domain: a model/implementation difference counts
+        # the Spec predicate is judged on the implementation's observations (default: exactly the in-domain cases;
+        # judge=True with in_domain=False = inputs the model does not cover but the property still speaks about)
+        self.judge = in_domain if judge is None else judge
 
 
 def flatten(cases):
